@@ -992,7 +992,9 @@ impl World {
                 } else {
                     self.parties[p].mems[g].pending = Some(id);
                 }
-                self.groups[g].candidates.entry(epoch).or_default().push(id);
+                if self.groups[g].reinit_at.is_none() {
+                    self.groups[g].candidates.entry(epoch).or_default().push(id);
+                }
                 if private {
                     self.parties[p].mems[g].unwritten_sends += 1;
                 }
@@ -1240,6 +1242,11 @@ impl World {
         }
         self.groups[g].log.push(win);
         let msg = self.msgs[&win].clone();
+        if msg.spec.as_ref().map(|s| s.reinit.is_some()).unwrap_or(false) {
+            // the delivery service knows the group ends here: nothing is accepted after a re-init commit
+            self.groups[g].reinit_at = Some(epoch);
+            self.groups[g].candidates.clear();
+        }
         self.ev(format!(
             "ds-pick g{g} e{epoch} winner={win} of {} by P{}",
             cands.len(),
@@ -2061,6 +2068,9 @@ impl World {
         let prop = self.cfg.property.clone();
         let latest = self.groups[g].log.len() as u64;
         if self.mem(p, g).ext_pending.is_some() || self.mem(p, g).welcome.is_some() {
+            return Ok(false);
+        }
+        if self.groups[g].reinit_at.is_some() {
             return Ok(false);
         }
         if self.multi() && !self.cfg.same_storage_rejoin {
